@@ -65,6 +65,9 @@ func (_this *Encoder) Init(config *configuration.Configuration) {
 // PrepareToEncode MUST be called before using the encoder.
 func (_this *Encoder) PrepareToEncode(writer io.Writer) {
 	_this.writer.SetWriter(writer)
+	// Forget any array that a previous, abandoned document left unfinished
+	_this.arrayType = events.ArrayTypeInvalid
+	_this.trySmallArrayHeader = false
 }
 
 // ============================================================================
